@@ -435,6 +435,9 @@ func appendSnapshotFunctions(b []byte, s *slip.Scope) []byte {
 				slip.String(p.Name),
 			})
 			for _, fi := range fia {
+				if fi.LoadForm() == nil { // defined by another form such as defclass
+					continue
+				}
 				b = append(b, '\n')
 				b = pp.Append(b, s, fi)
 			}
